@@ -143,7 +143,7 @@ def gen_pairs(ctx, rng, count):
     out = []
     templates = ["hand_made.mpd", "manifest_a.mpd", "manifest_n.mpd", "hand_made.mpd"]
     for i in range(count):
-        stream = ["bbb", "tears", "syn1", "syn2", "syn3"][i % 5]
+        stream = ["bbb", "tears", "syn1", "syn2", "syn3", "syn4"][i % 6]
         man = templates[(i // 5) % 4]
         depth = rng.choice([20, 40, 60, 120])
         opts = {"timeline": "1", "depth": str(depth)}
@@ -324,7 +324,7 @@ def ch_pair(ctx) -> Channel:
             if overlap:
                 ch.nontrivial.add((url, case["t1"], case["t2"]))
             ch.sample(case, limit=3)
-    for st_ in ("bbb", "tears", "syn1", "syn2", "syn3"):
+    for st_ in ("bbb", "tears", "syn1", "syn2", "syn3", "syn4"):
         set_stream_defaults(app, st_, None)
     for (case, impl_p), mo in zip(precs, _driver(ch, plines)):
         ch.count("patch_model_compared")
